@@ -53,6 +53,27 @@ def transitions(zone_name):
     return _TRANS[zone_name]
 
 
+SAME_OFFSET_POOL = ["UTC", "Africa/Johannesburg", "Africa/Lagos", "Africa/Algiers", "Europe/Paris", "Europe/London",
+                    "Europe/Helsinki", "Europe/Moscow", "Asia/Dubai", "Asia/Karachi", "Asia/Dhaka", "Asia/Bangkok",
+                    "Asia/Shanghai", "Asia/Tokyo", "Australia/Brisbane", "Australia/Sydney", "Pacific/Auckland",
+                    "Pacific/Fiji", "America/Caracas", "America/New_York", "America/Bogota", "America/Chicago",
+                    "America/Regina", "America/Denver", "America/Phoenix", "America/Los_Angeles", "America/Sao_Paulo",
+                    "America/Argentina/Buenos_Aires", "America/Halifax", "America/Puerto_Rico", "Atlantic/Azores",
+                    "Atlantic/Cape_Verde", "Pacific/Honolulu", "America/Anchorage", "Etc/GMT+12", "Etc/GMT-14",
+                    "Asia/Kolkata", "Asia/Colombo", "Australia/Adelaide", "Australia/Darwin"]
+
+
+def offset_at(zone_name, naive):
+    z = pytz.timezone(zone_name)
+    try:
+        return z.utcoffset(naive, is_dst=False)
+    except Exception:
+        try:
+            return z.utcoffset(naive + timedelta(hours=3), is_dst=False)
+        except Exception:
+            return None
+
+
 def zone_offsets(zone_name):
     z = pytz.timezone(zone_name)
     ti = getattr(z, "_transition_info", None)
@@ -183,9 +204,28 @@ def cases(draw):
         start = datetime(1970, 1, 2) + timedelta(hours=draw(st.integers(0, 24 * 365 * 67)))
     if draw(st.floats(0, 1)) < 0.1:
         start = start.replace(minute=draw(st.sampled_from([15, 30, 45])))
-    vals = draw(st.lists(st.one_of(st.integers(0, 1000).map(float), st.integers(0, 400).map(lambda k: k / 8.0)),
-                         min_size=n, max_size=n))
-    level = "system" if draw(st.floats(0, 1)) < 0.1 else "function"
+    r = draw(st.floats(0, 1))
+    if r < 0.04:
+        # a long series spanning several transitions (a year of hourly values)
+        n = draw(st.integers(4500, 9000))
+        seedv = draw(st.integers(1, 97))
+        vals = [float((i * seedv) % 13) for i in range(n)]
+    else:
+        vals = draw(st.lists(st.one_of(st.integers(0, 1000).map(float), st.integers(0, 400).map(lambda k: k / 8.0)),
+                             min_size=n, max_size=n))
+    level = "system" if r > 0.9 else ("two_zones" if r > 0.82 else "function")
+    if level == "two_zones":
+        zone2 = draw(st.sampled_from(ALL_ZONES))
+        if draw(st.floats(0, 1)) < 0.6:
+            # a second zone with the same UTC offset at the start of the window (both UTC series then start at the same
+            # instant, but only one of them may go through a transition)
+            off = offset_at(zone, start)
+            same = [z for z in SAME_OFFSET_POOL if z != zone and offset_at(z, start) == off]
+            if same:
+                zone2 = draw(st.sampled_from(same))
+        return {"zone": zone, "zone2": zone2,
+                "start": [start.year, start.month, start.day, start.hour, start.minute], "values": vals[:72],
+                "level": level}
     return {"zone": zone, "start": [start.year, start.month, start.day, start.hour, start.minute], "values": vals,
             "level": level}
 
@@ -201,6 +241,9 @@ def check(c, ctx):
                                   np.asarray(c["values"], dtype=float)):
                 ctx.violation("input_changed", c, "the local series was modified by the conversion",
                               {"kind": "input_changed"})
+        elif c["level"] == "two_zones":
+            check_two_zones(c, ctx, labels)
+            return
         else:
             from efootprint.core.country import Country
             from efootprint.core.hardware.device import Device
@@ -220,6 +263,8 @@ def check(c, ctx):
                               SourceHourlyValues(create_hourly_usage_df_from_list(c["values"], start)))
             System("sys", [up])
             df = up.utc_hourly_usage_journey_starts.value
+    except runner.Found:
+        raise
     except Exception as ex:
         ctx.violation("conversion_error", c, "conversion raised %s: %s" % (type(ex).__name__, str(ex)[:300]),
                       {"kind": "conversion_error"})
@@ -234,6 +279,55 @@ def check(c, ctx):
     if special:
         labels.append("dst_or_fractional_offset")
     ctx.case(c, special, labels, sample={k: c[k] for k in ("zone", "start", "level")} | {"n": len(c["values"])})
+
+
+def check_two_zones(c, ctx, labels):
+    """Two usage patterns with the same local series in two zones share one job: the job's occurrences across usage
+    patterns must be the timestamp-wise sum of the two UTC series (each checked against the reference)."""
+    from efootprint.core.country import Country
+    from efootprint.core.hardware.device import Device
+    from efootprint.core.hardware.network import Network
+    from efootprint.core.hardware.server import Server
+    from efootprint.core.hardware.storage import Storage
+    from efootprint.core.system import System
+    from efootprint.core.usage.job import Job
+    from efootprint.core.usage.usage_journey import UsageJourney
+    from efootprint.core.usage.usage_journey_step import UsageJourneyStep
+    from efootprint.core.usage.usage_pattern import UsagePattern
+    start = datetime(*c["start"])
+    srv = Server.from_defaults("srv", storage=Storage.from_defaults("st"))
+    job = Job.from_defaults("job", server=srv)
+    uj = UsageJourney("uj", [UsageJourneyStep("s", SourceValue(1 * u.min), [job])])
+    ups = []
+    for i, z in enumerate((c["zone"], c["zone2"])):
+        cty = Country("c%d" % i, "C", SourceValue(100 * u.g / u.kWh), SourceObject(pytz.timezone(z)))
+        ups.append(UsagePattern("up%d" % i, uj, [Device.from_defaults("d%d" % i)], Network.from_defaults("n%d" % i),
+                                cty, SourceHourlyValues(create_hourly_usage_df_from_list(c["values"], start))))
+    System("sys", ups)
+    special = False
+    expected = {}
+    for up, z in zip(ups, (c["zone"], c["zone2"])):
+        df = up.utc_hourly_usage_journey_starts.value
+        vals = np.asarray(df["value"].values.quantity.magnitude, dtype=float)
+        probs, sp = check_output(dict(c, zone=z), df.index, vals, ctx, "two_zones")
+        special = special or sp
+        if probs:
+            ctx.violation("wrong_conversion", c, "%s (usage pattern in %s): %s" % (z, z, "; ".join(probs[:2])),
+                          {"kind": "wrong_conversion", "what": "two_zones"})
+        for ts, v in zip(df.index, vals):
+            expected[ts] = expected.get(ts, 0.0) + float(v)
+    got = job.hourly_occurrences_across_usage_patterns.value
+    gvals = np.asarray(got["value"].values.quantity.magnitude, dtype=float)
+    gmap = {ts: float(v) for ts, v in zip(got.index, gvals)}
+    bad = [ts for ts in set(expected) | set(gmap) if abs(expected.get(ts, 0.0) - gmap.get(ts, 0.0)) > 1e-9 * max(
+        1.0, abs(expected.get(ts, 0.0)))]
+    if bad:
+        ts = sorted(bad)[0]
+        ctx.violation("zones_not_combined_on_utc", c,
+                      "%s + %s: job occurrences at %s are %r, the two UTC series sum to %r" % (
+                          c["zone"], c["zone2"], ts, gmap.get(ts, 0.0), expected.get(ts, 0.0)),
+                      {"kind": "zones_not_combined_on_utc"})
+    ctx.case(c, True, labels + ["two_zones"], sample={k: c[k] for k in ("zone", "zone2", "start", "level")})
 
 
 def replay(case, ctx):
